@@ -12,19 +12,28 @@ def findSG (n : Nat) : Option SG := Gen.allSG.find? (fun g => g.number == n)
 
 def showV (v : Int × Int × Int) : String := s!"{v.1} {v.2.1} {v.2.2}"
 
-def handle (ws : List String) : String :=
+def symHandle (ws : List String) : Option String :=
   match ws with
-  | ["ping"] => "pong"
+  | ["ping"] => some "pong"
   -- sym.act <sgno> <opindex> <k> <x> <y> <z>  : image of (x,y,z)/(24k) under the op, reduced mod 1
   | "sym.act" :: rest =>
     match parseInts rest with
     | some [n, i, k, x, y, z] =>
       match findSG n.toNat with
       | some g =>
-        if i.toNat < g.ops.length then showV ((getOp g.ops i.toNat).act k (x, y, z)) else "bad-op"
-      | none => "no-such-sg"
-    | _ => "bad-op"
-  | _ => "bad-op"
+        if i.toNat < g.ops.length then some (showV ((getOp g.ops i.toNat).act k (x, y, z))) else some "bad-op"
+      | none => some "no-such-sg"
+    | _ => some "bad-op"
+  | _ => none
+
+/-- REGISTER model handlers here: each returns `none` for commands it does not own.
+Command names are prefixed by the model (`sym.`, `lat.`, `adp.`, `stru.`, ...). -/
+def handlers : List (List String → Option String) :=
+  [ symHandle
+  ]
+
+def handle (ws : List String) : String :=
+  (handlers.findSome? (fun h => h ws)).getD "bad-op"
 
 partial def loop (h : IO.FS.Stream) (out : IO.FS.Stream) : IO Unit := do
   let line ← h.getLine
